@@ -10,6 +10,8 @@ for l in open('/verif/properties.jsonl'):
 wt = "/tmp/seed-%s%s" % (pid, variant)
 print(f"""You are helping to test a verification tool. You work ONLY inside the git worktree {wt} (a checkout of the Rust project evmar/n2, a Ninja-compatible build system). Do not read or write anything under /verif or /repo, and do not use the network (there is none; always pass --offline to cargo).
 
+(The unmodified tree may already have unrelated defects; your change must introduce a NEW violation that your demonstration distinguishes from the unmodified tree. Run the full test suite at least THREE times with your change to make sure it is not flaky or hanging.)
+
 Here is a semantic property that n2 is supposed to satisfy:
 
 TITLE: {p['title']}
@@ -26,6 +28,6 @@ Then write a demonstration: a shell script or small Rust integration test (put i
 Deliverables, all under {wt}/_out/ :
  - patch.diff : `git -C {wt} diff -- src` of your change (only files under src/),
  - demo.sh (or demo_test.rs + how to run it) : usage `demo.sh <path-to-n2-source-tree>` building that tree (use a CARGO_TARGET_DIR inside the tree) and running the scenario,
- - notes.md : what the change is, why it breaks the property, what is needed for it to manifest, and the exact commands you ran with their results (tests green with the change; demo fails with the change and passes without it — verify the 'without' case with `git diff -- src > /tmp/x.diff; git checkout -- src; ...; git apply /tmp/x.diff` or a second copy; do NOT use `git stash`, its ref is shared with other worktrees).
+ - notes.md : what the change is, why it breaks the property, what is needed for it to manifest, and the exact commands you ran with their results (tests green with the change; demo fails with the change and passes without it — verify the 'without' case with `git diff -- src > {wt}/_out/x.diff; git checkout -- src; ...; git apply {wt}/_out/x.diff` or a second copy; do NOT use `git stash`, its ref is shared with other worktrees).
 
 Verify everything yourself before finishing. Keep the change minimal (a few lines). Reply with a short summary (changed file/function, what manifests it, verification results).""")
